@@ -71,10 +71,13 @@ RunCoords(expr, ops, order, lvl, asg, ctx, st, cs, k) ==
              row  == [stamp |-> Append(ctx.stamp, k - 1), point |-> Append(ctx.point, c), pos |-> k - 1]
              st1  == [st EXCEPT !.it[lvl] = @ + 1, !.rows[lvl] = Append(@, row)]
              st2  == RunLevel(expr, ops, order, lvl + 1, asg @@ (order[lvl] :> c), [stamp |-> row.stamp, point |-> row.point], st1)
-         IN RunCoords(expr, ops, order, lvl, asg, ctx, st2, cs, k + 1)
+             \* did this body execution write into the output (then its output element survives the populate step)?
+             n    == Len(st1.rows[lvl])
+             st3  == [st2 EXCEPT !.wrote[lvl] = Append(@, st2.upd > st1.upd)]
+         IN RunCoords(expr, ops, order, lvl, asg, ctx, st3, cs, k + 1)
 Run(expr, ops, order) ==
     RunLevel(expr, ops, order, 1, <<>>, [stamp |-> <<>>, point |-> <<>>],
-             [z |-> {}, mul |-> 0, add |-> 0, upd |-> 0, it |-> [k \in 1..Len(order) |-> 0], rows |-> [k \in 1..Len(order) |-> <<>>]])
+             [z |-> {}, mul |-> 0, add |-> 0, upd |-> 0, it |-> [k \in 1..Len(order) |-> 0], rows |-> [k \in 1..Len(order) |-> <<>>], wrote |-> [k \in 1..Len(order) |-> <<>>]])
 
 \* ---- element-wise addition  Z[m] = A[m] + B[m]  in the union idiom:
 \*      for m, (z_ref, (mask, a_val, b_val)) in z_m << (a_m | b_m): z_ref <<= a_val + b_val
@@ -85,7 +88,7 @@ RunAdd(ops) ==
         val(c) == (IF c \in ca THEN (CHOOSE x \in ops["A"] : x[1][1] = c)[2] ELSE 0) + (IF c \in cb THEN (CHOOSE x \in ops["B"] : x[1][1] = c)[2] ELSE 0)
         sq == SetToSortedSeq(cs)
     IN [z |-> {y \in {<<<<c>>, val(c)>> : c \in cs} : y[2] # 0}, mul |-> 0, add |-> Cardinality(cs), upd |-> Cardinality(cs), it |-> <<Cardinality(cs)>>,
-        rows |-> << [k \in 1..Len(sq) |-> [stamp |-> <<k - 1>>, point |-> <<sq[k]>>, pos |-> k - 1]] >>]
+        rows |-> << [k \in 1..Len(sq) |-> [stamp |-> <<k - 1>>, point |-> <<sq[k]>>, pos |-> k - 1]] >>, wrote |-> << [k \in 1..Len(sq) |-> TRUE] >>]
 
 \* ---- tiling: variable v of every operand is split uniformly with step s into (v1, v0): v1 = (c div s) * s, v0 = c ----
 TilePt(pt, k, s) == SubSeq(pt, 1, k - 1) \o <<(pt[k] \div s) * s, pt[k]>> \o SubSeq(pt, k + 1, Len(pt))
